@@ -336,6 +336,7 @@ class Parser:
             arg_extr = arg = []
             delim = False
             tok = buf.skip_space()
+            last_pos = pos
             if tok:
                 pos = tok.pos
             if code == '*':
@@ -349,9 +350,11 @@ class Parser:
                 else:
                     if n < len(mac.defaults):
                         # NB: do not use positions from macro definition
+                        # NB: the next token does not belong to this macro,
+                        #     if the omitted argument is the last one
                         arg = [copy.copy(t) for t in mac.defaults[n]]
                         for t in arg:
-                            t.pos = pos
+                            t.pos = last_pos
                             t.pos_fix = True
             elif code == 'A':
                 if tok and tok.txt == '}':
